@@ -610,10 +610,11 @@ fn permutations(n: usize) -> Vec<Vec<usize>> {
     out
 }
 
-fn graph_family(run: &mut Run, sp: &Space) {
+fn graph_family(run: &mut Run, sp: &Space, budget_s: f64) {
     let identity: Vec<usize> = (0..sp.spec.n).collect();
     run.family(
         Family::new(&format!("graphs-{}", sp.label), sp.items, &sp.bounds())
+            .budget(budget_s)
             .describe(|item| {
                 let idx = sp.idx(item);
                 describe_graph(&sp.nm, &sp.tpls(&idx), &sp.sources(&idx), &sp.facts(&idx))
@@ -766,8 +767,12 @@ fn main() {
             },
         ));
     }
+    // Safety budgets only: every family completes well inside them on the unchanged tree (the
+    // evidence says `completed: false` otherwise). They bound the run when a regression makes a
+    // large share of the graphs kill their worker (each crash costs two process restarts).
+    let safety_s = if thorough { 3600.0 } else { 300.0 };
     for sp in &spaces {
-        graph_family(&mut run, sp);
+        graph_family(&mut run, sp, safety_s);
     }
     for sp in &spaces {
         infinite_family(&mut run, sp, if thorough { 300.0 } else { 60.0 });
@@ -782,7 +787,8 @@ fn main() {
             "orders-n3",
             osp.items,
             &format!("every one of the 3! registration orders of every graph of: {}", osp.bounds()),
-        ),
+        )
+        .budget(safety_s),
         |item, acc: &mut Acc| {
             let idx = osp.idx(item);
             let f = osp.facts(&idx);
